@@ -2,6 +2,7 @@ CONSTANTS
   Mode = "simulate"
   ExLenRd = 0
   ExLenWr = 0
+  ExLenRf = 0
   ExSizes = {1}
   ExEnvSel = "quick"
   SimLen = 200
